@@ -305,6 +305,7 @@ type OpRec struct {
 	Res  string `json:"res,omitempty"`
 	Err  bool   `json:"err,omitempty"`
 	Dead bool   `json:"dead,omitempty"`
+	Own  string `json:"own_error,omitempty"` // the error text when the operation failed although no fault was injected into it
 }
 
 // Faults controls and records the operations of a wrapped store.
@@ -372,6 +373,9 @@ func (f *Faults) end(idx int, res string, err error, a Action) {
 	if idx >= 0 && idx < len(f.Log) {
 		f.Log[idx].Res = res
 		f.Log[idx].Err = err != nil
+		if err != nil && a == None {
+			f.Log[idx].Own = err.Error()
+		}
 	}
 	if a == Crash {
 		f.Dead = true
